@@ -1,7 +1,7 @@
 (* C05, part 3: AlignmentResults.resolve on the filtered lists, _MultiPassWorkflowCoordinator.execute and Program.run *)
 From Coq Require Import ZArith QArith List Bool Lia Sorting.Permutation Sorting.Sorted.
 Import ListNotations.
-Require Import Py PyProofs Pairing Core Multi Coordinator BestProofs1 BestProofs2.
+Require Import Py PyProofs Pairing Core Multi Coordinator BestProofs1 BestProofs2 RowEq FreshProofs.
 Open Scope Z_scope.
 
 (* ---------- small list facts ---------- *)
@@ -109,6 +109,7 @@ Proof. intros K1 K2 H. unfold results_resolve in H. apply resolve_groups_spec in
 Qed.
 
 (* ---------- multi_execute / program_run ---------- *)
+(* resolve receives f1 ++ fresh_rows f1 f2 (repair F12: f2 without the rows that are in f1) *)
 Section Run.
 Variable P : params.
 Variable seeds : seeding.
@@ -123,10 +124,10 @@ Lemma multi_execute_inv m maxdiff qs o : multi_execute P seeds m maxdiff refs qs
     let f2 := filter_subsequent r2 in
     match m with
     | Separate => o = mkOut f1 (Some f2) None
-    | Best => exists joined sep, results_resolve (f1 ++ f2) maxdiff = Ok (joined, sep) /\
+    | Best => exists joined sep, results_resolve (f1 ++ fresh_rows f1 f2) maxdiff = Ok (joined, sep) /\
               o = mkOut (sort_by qid (joined ++ filter (fun w => negb (mem_z (qid w) (map qid joined))) f1)) None None
-    | Joined => exists joined sep, results_resolve (f1 ++ f2) maxdiff = Ok (joined, sep) /\ o = mkOut joined (Some sep) None
-    | All_ => exists joined sep, results_resolve (f1 ++ f2) maxdiff = Ok (joined, sep) /\ o = mkOut joined (Some f1) (Some f2)
+    | Joined => exists joined sep, results_resolve (f1 ++ fresh_rows f1 f2) maxdiff = Ok (joined, sep) /\ o = mkOut joined (Some sep) None
+    | All_ => exists joined sep, results_resolve (f1 ++ fresh_rows f1 f2) maxdiff = Ok (joined, sep) /\ o = mkOut joined (Some f1) (Some f2)
     end.
 Proof. unfold multi_execute. destruct (execute P seeds refs qs 1) as [[rows1 it1]|] eqn:E1; [|discriminate]. cbn [bind fst snd].
   destruct (all_fragments rows1 qs) as [frags|] eqn:Ef; [|discriminate]. cbn [bind].
@@ -147,3 +148,58 @@ Lemma program_run_inv m maxdiff qs o : program_run P seeds m maxdiff refs qs = O
 Proof. unfold program_run. destruct (multi_execute P seeds m maxdiff refs qs) as [o'|]; [|discriminate]. cbn [bind].
   intros H. injection H as <-. exists o'. split; reflexivity. Qed.
 End Run.
+
+(* ---------- the model BEFORE repair F12, kept for the regression statements ---------- *)
+(* _MultiPassWorkflowCoordinator.execute as it was: `AlignmentResults.resolve(filteredFirstPassRows + filteredSecondPassRows, maxDifference)` *)
+Definition multi_execute_before_F12 (P : params) (seeds : seeding) (m : mode) (maxdiff : Z) (refs qs : list omap) : res outputs :=
+  do r1 <- execute P seeds refs qs 1;
+  let rows1 := fst r1 in
+  do frags <- all_fragments rows1 qs;
+  do r2 <- execute P seeds refs frags (snd r1);
+  let rows2 := map set_rest (fst r2) in
+  let rows1' := match m with Best => rows1 ++ rows2 | _ => rows1 end in
+  let f1 := filter_subsequent rows1' in
+  let f2 := filter_subsequent rows2 in
+  match m with
+  | Separate => Ok (mkOut f1 (Some f2) None)
+  | _ =>
+    do js <- results_resolve (f1 ++ f2) maxdiff;
+    let joined := fst js in let sep := snd js in
+    match m with
+    | Best => let jids := map qid joined in
+              Ok (mkOut (sort_by qid (joined ++ filter (fun w => negb (mem_z (qid w) jids)) f1)) None None)
+    | Joined => Ok (mkOut joined (Some sep) None)
+    | _ => Ok (mkOut joined (Some f1) (Some f2))
+    end
+  end.
+Definition program_run_before_F12 (P : params) (seeds : seeding) (m : mode) (maxdiff : Z) (refs qs : list omap) : res outputs :=
+  do o <- multi_execute_before_F12 P seeds m maxdiff refs qs;
+  Ok (mkOut (filter_subsequent (o_main o)) (o_1 o) (o_2 o)).
+
+Lemma best_before_F12_inv P (seeds : seeding) refs maxdiff qs o : program_run_before_F12 P seeds Best maxdiff refs qs = Ok o ->
+  exists rows1 it1 frags rows2 it2 joined sep,
+    execute P seeds refs qs 1 = Ok (rows1, it1) /\ all_fragments rows1 qs = Ok frags /\
+    execute P seeds refs frags it1 = Ok (rows2, it2) /\
+    let f1 := filter_subsequent (rows1 ++ map set_rest rows2) in
+    let f2 := filter_subsequent (map set_rest rows2) in
+    results_resolve (f1 ++ f2) maxdiff = Ok (joined, sep) /\
+    o = mkOut (filter_subsequent (sort_by qid (joined ++ filter (fun w => negb (mem_z (qid w) (map qid joined))) f1))) None None.
+Proof. unfold program_run_before_F12, multi_execute_before_F12.
+  destruct (execute P seeds refs qs 1) as [[rows1 it1]|] eqn:E1; [|discriminate]. cbn [bind fst snd].
+  destruct (all_fragments rows1 qs) as [frags|] eqn:Ef; [|discriminate]. cbn [bind].
+  destruct (execute P seeds refs frags it1) as [[rows2 it2]|] eqn:E2; [|discriminate]. cbn [bind fst snd].
+  destruct (results_resolve _ maxdiff) as [[joined sep]|] eqn:Er; [|discriminate]. cbn [bind fst snd o_main o_1 o_2]. intros H. injection H as <-.
+  exists rows1, it1, frags, rows2, it2, joined, sep. repeat split; try assumption. Qed.
+
+(* outside `best` mode the repair changes nothing: the two models agree (first-pass rows and second-pass rows differ in AlignedRest) *)
+Theorem before_F12_same P (seeds : seeding) refs m maxdiff qs : m <> Best ->
+  program_run_before_F12 P seeds m maxdiff refs qs = program_run P seeds m maxdiff refs qs.
+Proof. intros Hm. unfold program_run_before_F12, program_run, multi_execute_before_F12, multi_execute.
+  destruct (execute P seeds refs qs 1) as [[rows1 it1]|] eqn:E1; [|reflexivity]. cbn [bind fst snd].
+  destruct (all_fragments rows1 qs) as [frags|] eqn:Ef; [|reflexivity]. cbn [bind].
+  destruct (execute P seeds refs frags it1) as [[rows2 it2]|] eqn:E2; [|reflexivity]. cbn [bind fst snd].
+  assert (HF : pass_flags rows1 (map set_rest rows2)).
+  { split; apply Forall_forall; intros w Hw; [apply (execute_rows _ _ _ _ _ _ _ E1 w Hw)|].
+    apply in_map_iff in Hw. destruct Hw as (y & <- & _). reflexivity. }
+  pose proof (fresh_rows_plain m rows1 (map set_rest rows2) Hm HF) as X. unfold fresh_rows in X.
+  destruct m; [congruence|reflexivity| |]; cbn [first_rows] in X; rewrite X; reflexivity. Qed.
